@@ -157,3 +157,63 @@ CHECKS = {
 
 _PENDING = 'rule module not yet implemented in this round; see DESIGN.md section 4 for the clauses planned'
 NOT_APPLICABLE = {p: _PENDING for p in ['C%02d' % i for i in range(1, 21)] if p not in CHECKS}
+
+
+# ---- as-built refresh (rounds 2 and 3): evaluated rules added on top of the structural ones. Each entry replaces the note and extends technique/text.
+E4 = 'finite-domain interpretation of the library source (engine/evalmini.py over the typed AST; nothing of /repo is compiled or run)'
+_AS_BUILT = {
+ 'C01': ('; ' + E4 + ' of the whole StructuredData library, of Normalizer + SyntaxTree::Node editing against reference semantics, and of the arithmetic visitor at the 32-bit limits',
+         ' As built it also decides: r2/r5 the set operations and the lazy/enumerated equality the evaluator delegates to (shared with C15 r6); r7/r8 recursion and filter semantics; r10 NORMALISE-MEANING - Normalizer::Normalize interpreted on trees with tuple/enumerated binders, re-used names, imperative blocks, recursions and inlined term-functions: the normalised tree, evaluated by reference semantics with one slot per name, has the value of the tree as written; arith:range - +,-,* give the exact result or a reported failure.',
+         'Value of arbitrary nested programs beyond the evaluated families is not decided. Oracles: set theory / propositional logic in rules/C01.py (_RefEval, operator tables) and rules/C15.py (_den). Seven normaliser defects, the int32 overflow and the lazy-cache dangling reference found this way were repaired (known_findings.json).'),
+ 'C02': ('; the normaliser interpreted from source (shared C01 r10), typing rules evaluated over a type universe (shared C03 r8/r9)',
+         ' As built: r8 is the evaluated normaliser rule (no variable of the evaluated tree unbound or captured), r9 the evaluated typing rules incl. ill-typed-operand scenarios, r10 declaration-variable reads.',
+         'NOT decided: that every structure the evaluator dereferences is implied by the accepting typing rule for whole expressions (decided per construct on a bounded type universe only). Known findings (3): evaluator refuses silently for declarations / anonymous function definitions (unknownError).'),
+ 'C03': ('; ' + E4 + ' of each Vi* typing rule over all operand-type vectors of a bounded universe against reference rules, including vectors with an ill-typed operand; scope discipline and recursion typing evaluated',
+         ' As built: r6 value-class table, r7 scope discipline, r8 type algebra (lub), r9 typing rules of 16 constructs (every operand is visited on every path: found ViFilter skipping its parameters for an empty argument, repaired), recursion typing.',
+         'Principal types of whole expressions are decided per construct on a bounded universe (depth <= 2, arity <= 3), not for arbitrary nesting. Not decided (audit findings, DESIGN 9.7): template instantiation from an any-typed argument, the declared argument list when argument domains re-use names, the fixed point of recursion typing.'),
+ 'C05': ('; ' + E4 + ' of the lexer base (token data) for numbers',
+         ' As built: r6 ConvertTo, r7 LITERALS-REPRESENTABLE (shared C06 r9): a literal / index the token data cannot hold is refused, never wrapped into a number that prints differently.',
+         'The family is finite (quick: witness operands; thorough: all 13233 tree-grammar sentences). Not decided (audit findings, DESIGN 9.7): Greek letters inside global identifiers, transliterations that collide with ASCII keywords.'),
+ 'C06': ('; ' + E4 + ' of LexerBase::Stream/lex/MakeToken/ParseData and TokenData::FromIndexSequence with the scanner verdict supplied',
+         ' As built: r7 lexer reset (shared C18), r8 FindMinimalNode evaluated on trees, r9 TOKEN-DATA: an integer literal or index list carries exactly the numbers written or the token is refused (found the int32/int16 wrap, repaired).',
+         'Trusts bison 3.8.2 for the sync comparison only. Does not decide that RE/flex reports columns in code points, nor sentences longer than the corpus shapes.'),
+ 'C08': ('; TRANSLATE-ONCE call-graph rule with slots filled from the repository; MergeWith interpreted on schemas whose texts are mention sequences',
+         ' As built: r6 byte vs code-point units, r7 refresh + evaluated MergeWith (every mention renamed exactly once by the complete map), r8 TRANSLATE-ONCE (single-item inserters already rename the own alias; a later complete translation requires every text stored again from the source).',
+         '"Same schema up to renaming" as data is not decided. Not decided (audit findings, DESIGN 9.7): RSAggregator keeps an inherited convention untranslated, OpRelativation finds calls by substring, _ERROR suffix on ordinary words of conventions.'),
+ 'C09': ('; SELF-REFERENCE rule over records (member closures / own-member addresses vs memberwise copy and move); NewUID evaluated',
+         ' As built: r6 generator evaluation, r7 views, r8 SELF-REFERENCE: an object whose member refers back to the object is never copied or moved memberwise (found RSCore::cstList bound to the source after a copy, repaired).',
+         'Does not decide list order after arbitrary MoveBefore sequences beyond what the priority table implies.'),
+ 'C12': ('; MergeWith interpreted on small schemas (mention sequences); TRANSLATE-ONCE call-graph rule; admissible-table evaluation',
+         ' As built: r5 is the evaluated merge (every constituent copied and recorded, every mention renamed exactly once), r6 admissible table, r7 TRANSLATE-ONCE (shared C08 r8).',
+         'Correctness and type preservation of the resulting schema are value-level and not decided. Not decided (audit findings, DESIGN 9.7): duplicate elimination can leave a translation pointing at an erased constituent; dependency loops are prechecked per pair only; the typification comparison can throw or not terminate on inadmissible tables.'),
+ 'C13': ('; graph closures of the interpreted CGraph (shared C14 r8); admissibility of a selection evaluated over all kinds',
+         ' As built: r6 uses the evaluated ExpandInputs/ExpandOutputs/InputsFor/Sort, r7 selection admissibility.',
+         'Preservation of correctness status and typification of each copied constituent is value-level and not decided. Not decided (audit findings, DESIGN 9.7): renumbering can capture a dangling name; a dependency loop created by an edit stays VERIFIED in the source schema (Schema::TriggerParse).'),
+ 'C14': ('; ' + E4 + ' of all of CGraph on every graph over three items, named shapes on 4-6 items, erase/re-add/replace histories and every single further update, both visiting orders of unordered sets, against the mathematical graph',
+         ' As built: r8 GRAPH-EVALUATED decides exactness of every query as data on the bounded family (membership, edges, inputs, counts, reachability incl. the diagonal, cycles, cycle groups = SCCs containing a cycle, topological order validity, closures, Sort); r1-r5, r7 recognise today\'s algorithm forms for graphs of any size and defer to r8 when the form is different but every evaluated answer is right.',
+         'Exactness beyond the bounded family rests on the structural rules (only when today\'s forms are recognised). One finding (IsReachableFrom(x,x) on a longer cycle) repaired.'),
+ 'C15': ('; ' + E4 + ' of the entire StructuredData library (engine/models/sdmodel.py: comparison, std::set order through the interpreted operator<, lazy product / power-set iterators, factories, set operations) on mixed-representation families against set theory; reference-origin analysis for accessors',
+         ' As built: r6 ALGEBRA-EVALUATED (equality, order incl. transitivity, iteration once each, cardinality incl. saturation arithmetic, membership, all set operations, nesting, copies, 32-bit extremes, signed-overflow detection), r7 REFERENCE-STABILITY (a public const accessor never returns a reference into a container a const member can clear). r2/r3/r5 recognise today\'s forms and defer to r6 otherwise.',
+         'Copy-on-write itself (use_count gate) is decided structurally (r1); the evaluation answers use_count() as shared. Two findings repaired: asymmetric lazy iterator equality (IsSubsetOrEq wrong on lazy sets), references into the evictable shared cache.'),
+ 'C16': ('; packer and unpacker interpreted from source on a family of typifications and values, also with the reserved count scaled into the evaluated range',
+         ' As built: r3 ROUND-TRIP evaluated (sets of sets, tuples with sets, negatives, empty sets at every level); the family is evaluated again with SDCompact::unknownCount scaled to 2 and 3 because that constant lies inside the range of real cardinalities (found: a set of exactly that size did not unpack; repaired).',
+         'Hostile tables are covered by the structural guards (r2) only. Not decided (audit finding, arguable): CheckCompatible inspects only the first element of a set.'),
+ 'C17': ('; ' + E4 + ' of Reference::ExtractAll (with the UTF-8 iterator and Substr), Reference::Parse, OutputRefs and ResolveAll on bounded text families; STORED-VALID who-may-store rule',
+         ' As built: r7 write-back, r8 resolve-all, r9 SCAN-EVALUATED (exactly the well-formed @{...} occurrences whatever precedes them), r10 OFFSET-FAITHFUL (offset carried exactly or refused), r11 STORED-VALID (every writer of RefsManager::refs stores only references that passed IsValid()). Four findings repaired.',
+         'Texts where an ill-formed balanced marker contains another marker are left open by the definition and skipped.'),
+ 'C18': ('; SELF-REFERENCE rule over analyser records',
+         ' As built: lexer reset generalised per entry point, statics reset on every path, r4 SELF-REFERENCE (the parser driver points at the parser\'s own state: found defaulted move operations, repaired).',
+         'Assumes the analysers are deterministic functions of their members and arguments.'),
+ 'C19': ('; LoadParent interpreted over all 4-node DAGs; scope-aware guard lifetime',
+         ' As built: r5 notifications suspended only around storing an operation\'s own result (finding repaired), r6 handle access + LoadParent evaluation.',
+         'Equality of an executed result with a fresh synthesis of the parents and the carrying-over of user additions (RSAggregator) are not decided.'),
+ 'C20': ('; ' + E4 + ' of Substr, TrimWhitespace, SplitBySymbol, IsInteger and Merge on all small strings / windows',
+         ' As built: r5 Substr, r6 Trim, r7 Split / IsInteger evaluated on every string of a bounded family over 1-4 byte code points, Merge as a whole function.',
+         'String functions are decided on bounded families (length <= 4 code points quick), not for unbounded strings. An independent audit (differential fuzzing) found no violation.'),
+}
+for _k, (_tech, _text, _note) in _AS_BUILT.items():
+    CHECKS[_k]['technique'] += _tech
+    CHECKS[_k]['text'] += _text
+    CHECKS[_k]['note'] = _note
+NOTES += (' Round 3: whole components are interpreted from their source on bounded families (StructuredData, CGraph, Normalizer with SyntaxTree editing, MergeWith, lexer token data, reference scanning); '
+          'shape recognisers defer to them instead of alarming on an unrecognised form. 30 genuine defects decided by the checks were repaired in /repo (known_findings.json, status fixed); 4 remain listed as known.')
